@@ -142,6 +142,16 @@ CHECKS['C19'] = dict(
     design='4 (C19), 6 (D12)',
     technique='Coq proofs about the re-adoption copy model (Sim / Consistent); vm_compute correspondence deepcopy = recopy, pickle = identity; node-by-node, id-disjointness, merge/evaluate and mutation oracles for replays')
 
+CHECKS['C01'] = dict(
+    text='Machine-checked: C01_transparent (for every YAML graph and EVERY placement of merge-control tags / metadata the loaded tree holds exactly the plain data of the graph), '
+         'C01_move_tags (two decorations of one graph load to the same content), C01_single_document_build (a single mapping document without !notnew passes through Builder.build unchanged), '
+         'C01_evaluates (check + deep copy + evaluation of the loaded document yield exactly that plain data, keys incl. underscore-prefixed ones, order, exact scalars). '
+         'The loader model describes the RESULT of the PyYAML construct protocol (top-down adoption); it is tied to the real loader by correspondence on all raw flags of tagged text, '
+         'including the nesting shapes of the repaired defects D1/D2/D12. Partial: PyYAML (scanner, parser, composer, resolver), the {{..}} text rewriting and the deferred-fill protocol '
+         'itself are modelled by result / trusted and covered by the correspondence and the tagged-vs-erased-twin oracle (incl. a block-style corpus), not verified.',
+    design='4 (C01), 6 (D1, D2, D12, D20)',
+    technique='Coq proofs by induction on the YAML graph over a functional loader model + the plain-evaluation theorem; vm_compute correspondence loader vs model on tagged text; tagged-vs-erased twin oracle through PyYAML for replays')
+
 NOT_APPLICABLE = {}
 
 
